@@ -26,7 +26,7 @@ pub fn lsp_bin() -> PathBuf {
 }
 
 /// CPU seconds a child process may use before the kernel kills it (SIGXCPU).
-pub const CHILD_CPU_LIMIT_S: u64 = 20;
+pub const CHILD_CPU_LIMIT_S: u64 = 8;
 
 fn limit_child(cmd: &mut Command) {
     unsafe {
